@@ -27,18 +27,13 @@ def judge(ck, shape, run, stats):
     if run.get("panic"):
         ck.violation("panic: %s" % ident, rec); return
     if not run["returned"]:
-        b = run["blocked"]
-        if shape["trigger"] and b.get("j1") == "fifo.open" and b.get("main") == "wait.before":
-            key = "Dev_FifoOpenNoCancel"
-        else:
-            key = "Run did not return within %d ms of cancel: %s blocked=%s" % (KILL_MS + MARGIN_MS, ident, json.dumps(b, sort_keys=True))
+        key = "Run did not return within %d ms of cancel: %s blocked=%s" % (KILL_MS + MARGIN_MS, ident, json.dumps(run["blocked"], sort_keys=True))
         ck.violation(key, rec); return
     if run["err_nil"]:
-        # the spec replayed this very trace: if it has an accepted path on which main never observed the
-        # cancellation (it sat in `wait` until the job had ended), this is the named deviation
-        # Dev_WaitSwallowsCancel
-        if False in (run.get("spec_seen") or []):
-            ck.violation("Dev_WaitSwallowsCancel", rec); return
+        # the spec replayed this very trace: if it has an accepted path on which main observed the cancellation
+        # only inside a trap body, this is the named deviation Dev_TrapSwallowsCancel
+        if "trap" in (run.get("spec_seen") or []):
+            ck.violation("Dev_TrapSwallowsCancel", rec); return
         ck.violation("Run returned a nil error although cancelled while running: %s" % ident, rec); return
     stats["max_ms"] = max(stats["max_ms"], run["cancel_to_return_ms"])
     stats["nontrivial"].add((shape["id"], run["effective"], run["by_watchdog"]))
@@ -128,7 +123,7 @@ def run(ck):
         print("TRACE-REJECTED property=C31 %d of %d recorded traces are not behaviours of ShCancel (first: %s)" % (len(bad), len(pairs), bad[0]))
     ck.cov["distinct_nontrivial"] = len(stats["nontrivial"])
     ck.cov["exhaustive"] = False
-    ck.cov["rule"] = ("every shape emitted by ShCancel (17 programs built from the blocking primitives) x cancellation at hook step "
+    ck.cov["rule"] = ("every shape emitted by ShCancel (programs built from the blocking primitives, incl. EXIT/ERR trap bodies) x cancellation at hook step "
                       "k = 0..%d, stopping at the first k the program does not reach (then cancelled while quiescent); evaluation = one "
                       "run of the real interpreter with measured cancel-to-return time; non-trivial = distinct (shape, number of hook "
                       "events before the cancel, quiescent or not) that returned in time with an error" % kmax)
